@@ -13,6 +13,14 @@ CLAIMED = {
             "system and then evaluates the same laws on every entry of the real tables and on every 2-step "
             "transposition path replayed on the real code.",
             "Trusts TLC, the JSON bridge, and that Key/CircleOfFifths are pure functions of their arguments.", "6 (C20)"),
+    "C18": ("SimpleOps", "TLC model check of SimpleOps.tla (score x operation histories) + replay of its behaviours on real "
+            "Sequence objects + TLC trace validation of every step",
+            "TLC explores every history of <=2 operations (22 argument choices) from every generated score (<=2 notes, "
+            "signature/control extras, trailing rests) and checks that the reference design meets the acceptor clauses; "
+            "all single-operation behaviours and seeded samples of longer ones are replayed on the real code from both "
+            "construction routes, both views are read on deep copies and TLC evaluates every clause of the property "
+            "(exact post-state) on each step.",
+            "Bounded scope (small scores, listed arguments); trusts TLC, the JSON bridge and the projection in harness/project.py.", "6 (C18)"),
 }
 PENDING = {}
 props = [json.loads(l) for l in open(V / "properties.jsonl")]
